@@ -792,3 +792,16 @@ func (s *Sched) inspectRun(f func()) {
 }
 
 func onRoot(s *Sched) bool { return goid() == s.rootGoid }
+
+// Inspect runs f on the scheduler goroutine (from an AfterStep hook); if f needs a simulator
+// lock that a parked task holds, f is abandoned for this step.
+func Inspect(f func()) {
+	defer func() {
+		if r := recover(); r != nil {
+			if _, ok := r.(inspectBusy); !ok {
+				panic(r)
+			}
+		}
+	}()
+	f()
+}
